@@ -200,7 +200,7 @@ func runApiHistory(t *testing.T, r *Rng, side *Sidecar, nops int) (string, apiHi
 	if r.Chance(35) {
 		cap = 2 + r.Intn(4)
 	}
-	const tick = 3 * time.Millisecond
+	const tick = 10 * time.Millisecond
 	w := newApiWorld(t, int32(cap), tick, time.Hour)
 	defer rpcfilters.VerifSetFilterDeadline(5 * time.Minute)
 	hist := apiHist{Cap: cap}
